@@ -25,7 +25,7 @@ for p in props:
 m = dict(version=1, setup_cmd='./check --setup',
          hooks=dict(guard='verif', enable='go build -tags verif (harness module github.com/tink-crypto/tink-go/v2/verifharness with replace => /repo)',
                     baseline_off_cmd='cd /repo && GOFLAGS=-mod=mod go test -json -vet=off -count=1 -timeout 25m ./...',
-                    source_commits=[l.strip() for l in open('/verif/MANIFEST.hooks') if l.strip() and not l.startswith('#')],
+                    source_commits=[l.split()[0] for l in open('/verif/MANIFEST.hooks') if l.strip() and not l.startswith('#')],
                     add_only=True),
          engines=[dict(name='coq-proof+correspondence', path='/verif/check', serves_properties=[c['property_id'] for c in checks],
                        kind_free_text='Coq 8.16.1 theorems over Gallina models (coq/), models extracted with ExtrOcamlBasic and run against the Go implementation on generated inputs (harness/, ocaml/), translator regenerating coq/gen from /repo')],
